@@ -5,11 +5,15 @@ orchestrator diffs the two result streams. Each channel family lives in its own 
 under Drivers/ and exports `handle : List String → Option String` (`none` = not mine).
 -/
 import Iso8583.Drivers.Layers
+import Iso8583.Drivers.Fields
+import Iso8583.Drivers.Net
 
 namespace Iso8583.Driver
 
 def handlers : List (List String → Option String) :=
-  [ Iso8583.Drivers.Layers.handle ]
+  [ Iso8583.Drivers.Layers.handle,
+    Iso8583.Drivers.Fields.handle,
+    Iso8583.Drivers.Net.handle ]
 
 def runLine (line : String) : String :=
   let toks := line.splitOn " "
